@@ -603,7 +603,7 @@ def axioms_for(formulas):
     *not* assumed: it is false for e.g. U+0130)."""
     apps, seen = [], set()
     for f in formulas:
-        _collect_apps(f, {"py_lower", "py_upper", "py_strip", "py_rep", "py_replace"}, apps, seen)
+        _collect_apps(f, {"py_lower", "py_upper", "py_strip", "py_rep", "py_replace", "py_float_str"}, apps, seen)
     out = []
     done = set()
     # constant ASCII prefixes / suffixes tested on x carry over to lower(x) / upper(x)
@@ -659,6 +659,14 @@ def axioms_for(formulas):
             nolead = z3.And(*[z3.Not(z3.PrefixOf(z3.StringVal(ch), x)) for ch in WS_CHARS + "\x1c\x1d\x1e\x1f\x85\xa0"])
             notrail = z3.And(*[z3.Not(z3.SuffixOf(z3.StringVal(ch), x)) for ch in WS_CHARS + "\x1c\x1d\x1e\x1f\x85\xa0"])
             out.append(z3.Implies(z3.And(nolead, notrail, _ascii_ends(x)), a == x))
+        elif n == "py_float_str":
+            # repr of a float: non-empty, no blanks, begins with a digit, '-', 'i' (inf) or 'n' (nan), ends with a
+            # digit or a letter of inf/nan: in particular never starts or ends with a delimiter
+            out.append(z3.Length(a) > 0)
+            out.append(py_strip(a) == a)
+            for ch in DELIMS:
+                out.append(z3.Not(z3.PrefixOf(z3.StringVal(ch), a)))
+                out.append(z3.Not(z3.SuffixOf(z3.StringVal(ch), a)))
         elif n == "py_replace":
             x, pat, new = a.arg(0), a.arg(1), a.arg(2)
             # a pattern that does not occur is not replaced
